@@ -60,7 +60,7 @@ int32_t matrixSslValidatePeerCerts(ssl_t *ssl,
 {
     matrixValidateCertsOptions_t *opts;
     psX509Cert_t *foundIssuer;
-    int32_t rc;
+    int32_t rc, valRc;
 
     opts = &ssl->validateCertsOpts;
 
@@ -78,10 +78,31 @@ int32_t matrixSslValidatePeerCerts(ssl_t *ssl,
         ssl->err = SSL_ALERT_INTERNAL_ERROR;
         return MATRIXSSL_ERROR;
     }
+    valRc = rc;
 
     psCheckSetPathLenFailure(ssl, ssl->sec.cert);
     rc = psCheckValidationResult(ssl,
             ssl->sec.cert);
+    if (rc >= 0 && valRc < 0)
+    {
+        /* The validator can fail without marking any certificate (issuer
+           date test, bad options or expected name): that is a failed
+           validation all the same, as in the TLS 1.2 and below path. */
+        if (ssl->err == SSL_ALERT_NONE)
+        {
+            ssl->err = SSL_ALERT_BAD_CERTIFICATE;
+        }
+        rc = valRc;
+    }
+    if (rc >= 0 && ssl->err == SSL_ALERT_NONE &&
+        (ssl->keys == NULL || ssl->keys->CAcerts == NULL))
+    {
+        /* A chain that ends in a self-signed certificate validates
+           against itself when no CA is loaded: nobody we trust has vouched
+           for it (same rule as in the TLS 1.2 and below path). */
+        ssl->err = SSL_ALERT_UNKNOWN_CA;
+        rc = -1;
+    }
     if (rc < 0)
     {
         if (ssl->sec.validateCert == NULL)
